@@ -248,11 +248,37 @@ func genC20(d *Draw) Case {
 		}
 		c.Gens = append(c.Gens, gp)
 	}
+	if d.N(16) == 15 {
+		// several generators created one after the other, one of them drawing thousands of ids inside one frozen
+		// time unit while the others draw a few: whatever the generators share (a partition, a sequence space
+		// cut into slices) must not make two of them issue the same id
+		c.Gens = nil
+		heavy := d.N(3)
+		for i, n := 0, 2+d.N(3); i < n; i++ {
+			gp := genPlan{Kind: "sno", Workers: 1, Draws: 1 + d.N(60)}
+			if i == heavy || i == n-1 && heavy >= n {
+				gp.Draws = 4000 + 500*d.N(20)
+			}
+			c.Gens = append(c.Gens, gp)
+		}
+	}
 	if d.N(40) == 39 {
 		// enough draws from one generator inside one frozen time unit to overflow its sequence
 		c.Gens = []genPlan{{Kind: "sno", Workers: 1 + d.N(3), Draws: 70000}}
 	}
 	return c
+}
+
+func (c *IdCase) heavyAmongSeveral() bool {
+	if len(c.Gens) < 2 {
+		return false
+	}
+	for _, g := range c.Gens {
+		if g.Draws >= 4000 {
+			return true
+		}
+	}
+	return false
 }
 
 func checkC20(cc Case, r *simrt.Result) *Outcome {
@@ -312,6 +338,7 @@ func checkC20(cc Case, r *simrt.Result) *Outcome {
 	}
 	o.Nontrivial = workers > 1 || len(c.Gens) > 1 || c.Seq > 1
 	probe(o, "several-generators", len(c.Gens) > 1)
+	probe(o, "thousands-of-draws-in-one-time-unit-next-to-other-generators", c.heavyAmongSeveral())
 	probe(o, "instances-following-each-other-in-one-engine", c.Seq > 0)
 	probe(o, "two-fallback-generators-same-instant", kinds["fallback"] > 1)
 	probe(o, "snapshot-restore", c.env.FaultCounts()["snapshot-restore"] > 0)
